@@ -27,7 +27,7 @@ CLAIMED = {
          "the status transition relation the code can perform equals the allowed one (paid/canceled terminal, never rewritten); each terminal write is paired with exactly one queue notice of the same id; every term check precedes the record write in Process/Replace; Finalize needs txid membership, voted header hash, SPV and reports the matched output",
          "behaviour over interleavings as such, float rounding of the fee-rate comparison, id reuse by the execution layer"),
  "C20": ("must-pass relational guard facts on the stored SSA value for every runtime store to the three bounded parameters + who-may-write",
-         "every runtime store to DepositTaxRate/MinDepositAmount/ConfirmationNumber is dominated by the bound on the very value stored (rate < 10000, amount > 1000, number >= 1); no other runtime writer; tax divisor equals the rate bound and division comes first",
+         "every runtime store to DepositTaxRate/MinDepositAmount/ConfirmationNumber is dominated by the bound on the very value stored (rate < 10000, amount > 1000, number >= 1); no other runtime writer; tax divisor equals the rate bound and division comes first; every parameter store fed from a request element is reached under the same request-dependent guards as the other stores fed from that element (an out-of-range request is ignored as a whole)",
          "the arithmetic consequence for every 64-bit value; genesis configuration"),
  "C06": ("call-graph who-may-call + SSA nonce/queue pop-shape analysis (value graph of the nonce, counter identity of index and re-slice) + must-pass facts",
          "the dequeue functions are reachable only via Dequeue/VerifyDequeue (tx context: NewEthBlock only); every emitted system tx is paired with nonce+1 and the stored nonce is Peek + emits; lists are consumed F[n] for n=0.. under len/cap bounds and re-sliced by the same n; queue and nonce are stored on every success path that emitted; block hashes are stored at tip+1.. with start == tip+1 and have no other writer; VerifyDequeue byte-compares the two dequeued lists in order and requires the declared count to reach zero, and in NewEthBlock it precedes the processing of the payload's own requests; other queue writers only append at the tail",
@@ -35,8 +35,8 @@ CLAIMED = {
  "C07": ("call-graph reachability to nondeterminism sources with a positive control + map-range loop-body effect analysis + process-local-state rules",
          "no time/rand/env/goroutine/channel/select reachable from tx, block-hook, ante or genesis code; every map range there is order-insensitive (no store access at all in gas-metered context; key-derived writes and order-free result in block context); no package-level or keeper-reachable mutable state; only exact IEEE float operations",
          "determinism of dependencies, restart equivalence of the store"),
- "C08": ("must-pass facts in ProcessProposal/PrepareProposal closures + sibling obligation comparison (proposal check vs execution) + inter-procedural read/write effect sets of errgroup closures",
-         "ProcessProposal skeleton (1..16 txs, per-tx verification, first tx = single MsgNewEthBlock verified, none later, ACCEPT after the list); Prepare stops at the same cap; verifyEthBlockProposal and NewEthBlock agree on the structural checks (proposer, fee recipient, parent hash, number+1, 32-byte block hash, beacon root, system txs, requests) and createEthBlockProposal sources the same state; engine error/non-VALID rejects; no memory written by one errgroup closure is accessed by its sibling",
+ "C08": ("must-pass facts in ProcessProposal/PrepareProposal closures + sibling obligation comparison (proposal check vs execution) + inter-procedural read/write effect sets of errgroup closures + call-graph who-may-write of begin blockers against the collections read by the proposal-time checks",
+         "ProcessProposal skeleton (1..16 txs, per-tx verification, first tx = single MsgNewEthBlock verified, none later, ACCEPT after the list); Prepare stops at the same cap; verifyEthBlockProposal and NewEthBlock agree on the structural checks (proposer, fee recipient, parent hash, number+1, 32-byte block hash, beacon root, system txs, requests) and createEthBlockProposal sources the same state; engine error/non-VALID rejects; no memory written by one errgroup closure is accessed by its sibling; every mempool tx entering the prepared proposal passes a size guard (including the block tx) against RequestPrepareProposal.MaxTxBytes; no begin-of-block code writes a collection that the proposal-time dequeue / head checks read (so the accepted proposal is finalised on the state it was built on)",
          "that honest proposals are always accepted (clocks, engine behaviour), races inside the SDK/mempool"),
  "C09": ("who-may-write + must-pass facts dominating the head writes + value provenance of the engine call arguments + typed AST of the app config",
          "Block/BeaconRoot written only by NewEthBlock and genesis, after every structural guard (incl. a 32-byte block hash: the engine sees a cropped hash, the head records the raw bytes) and request processor; Finalized returns both engine errors, fails on INVALID from either call, sends the recorded head with safe = finalized = parent; goat EndBlock returns Finalized's error and the module is wired as end-blocker; engine RPC wrappers propagate errors",
@@ -51,7 +51,7 @@ CLAIMED = {
          "the block reward moved into distribution equals what leaves the grant and is min(remaining, halved reward); each share is floor(pool x previous-block power / total) with round-down operations only, the same value is credited to the validator and subtracted from the remainder that is stored back; claim queues the accrued amounts read before the reset and stores record and queue",
          "the emission numbers, proportionality beyond rounding direction, non-negativity over histories"),
  "C13": ("validator-status typestate (current and as-loaded) at every ranking/locking-index effect site + path searches for remove-before-change + positive-power guard facts",
-         "ranking inserts use the record's current power, only for Pending/Active records and only under power > 0; power changes and status writes leaving {Pending,Active} of possibly-ranked records are preceded by removal of the loaded ranking entry; a removed ranking entry is re-inserted on every path on which the record stays Pending/Active with possibly positive power; the locking index is written only for Pending/Active records and fully cleared when a record leaves them; EndBlocker reports the loaded record's power, mirrors it in ValidatorSet and bounds the walk by MaxValidators",
+         "ranking inserts use the record's current power, only for Pending/Active records and only under power > 0; power changes and status writes leaving {Pending,Active} of possibly-ranked records are preceded by removal of the loaded ranking entry; a removed ranking entry is re-inserted on every path on which the record stays Pending/Active with possibly positive power; the locking index is written only for Pending/Active records and fully cleared when a record leaves them; EndBlocker reports the loaded record's power, mirrors it in ValidatorSet and bounds the walk by MaxValidators; every explicit failure exit of the begin blocker's reward distribution is reached only with a non-empty last commit (a chain started from an exported state has a first block without one)",
          "top-K optimality over histories, ties, total-power overflow, store errors"),
  "C14": ("enum typestate over Validator.Status in every locking function + must-pass guard facts at transitions",
          "the status transition relation equals the allowed one (nothing leaves Tombstoned; Inactive only to Tombstoned); unjail only after the jail time with all thresholds met; jail only under the missed-blocks guard on the stored counter (incremented or not by this block, never a value that may come from the window reset) with power 0, jail time and downtime slash; only Active validators are counted; the signing window is reset on (re)activation or jail; evidence is ignored only when both age limits are exceeded; locks never touch dead validators",
@@ -60,16 +60,16 @@ CLAIMED = {
          "maturity = block time + exit delay exactly when status is Inactive/Tombstoned or the remainder falls below the threshold, else + unlock delay; the entry written is the stored entry for that instant extended by this unlock; exiting zeroes power, moves to Inactive, clears the locking index and never re-ranks; the sweep covers (-inf, block time], removes every visited key, appends every visited unlock once in order and stores the queue; no two read-modify-write sequences on one keeper map with different key expressions are interleaved (lost update)",
          "time arithmetic, delivery caps over histories"),
  "C16": ("must-pass proof facts before any write in NewVoter + voter-status typestate with queue pairing + relational guard on the remaining-member count + election path searches",
-         "a voter joins only after both proofs over the same registration sign doc bound to chain/epoch/proposer, with matching key hash and PENDING status; status transitions are the allowed ones and each boarding write is paired with one queue append; a removal is queued only if the remaining count stays >= 1; an election is skipped only within the period with an accepted proposer / no or unexpired timeout, and started only when the period elapsed or a configured timeout expired unaccepted; every election path increments the epoch once, stores the relayer, and replaces/swaps the proposer with a voter that leaves the voter list; applied queues are cleared and stored",
+         "a voter joins only after both proofs over the same registration sign doc bound to chain/epoch/proposer, with matching key hash and PENDING status; status transitions are the allowed ones and each boarding write is paired with one queue append; a removal is queued only if the remaining count stays >= 1; an election is skipped only within the period with an accepted proposer / no or unexpired timeout, and started only when the period elapsed or a configured timeout expired unaccepted; every election path increments the epoch once, stores the relayer, and replaces/swaps the proposer with a voter that leaves the voter list; applied queues are cleared and stored; a voter record is created only when its address is absent and after a branch on a lookup that receives the new vote key and reads the voter records (distinct members)",
          "election timing over block-time histories, randomness quality"),
  "C17": ("sibling recipe extraction (canonical SSA expressions of builder vs verifier) + literal/guard facts + key-type matrix facts",
          "for each key type and version the address builder and the script verifier derive the witness program / data script by the same recipe over the same argument roles; verifier literals match the address kind; v1 is ECDSA-only on both sides and deposit verification does not delegate to a helper with a different key matrix; the query dispatches versions like verification; DecodeBtcAddress passes network, IsForNet, p2pk rejection and PayToAddrScript",
          "equivalence with btcd on all strings (library behaviour)"),
- "C18": ("coverage analysis of keeper collections and GenesisState fields over Init/ExportGenesis (types + store call sites) + guard facts on derived-index rebuilds + abstract evaluation of import-side validators against runtime record writers + per-status path search to import panics",
-         "every collection is exported and imported or is a derived index rebuilt on import; every GenesisState field is assigned on export and consumed on import; derived indices obey the runtime guards (ranked states, positive power, Active-only validator set, queue by voter status); the exported validator set is the recorded ValidatorSet with the validators' keys; every record the running chain builds with statically known field shapes passes the Validate method run on import; no named status value leads to a status-decided panic in code run on import",
+ "C18": ("coverage analysis of keeper collections and GenesisState fields over Init/ExportGenesis (types + store call sites) + guard facts on derived-index rebuilds + abstract evaluation (known shapes, integer intervals) of import-side validators against runtime record writers + per-status path search to import panics",
+         "every collection is exported and imported or is a derived index rebuilt on import; every GenesisState field is assigned on export and consumed on import; derived indices obey the runtime guards (ranked states, positive power, Active-only validator set, queue by voter status); the exported validator set is the recorded ValidatorSet with the validators' keys; every record the running chain builds with statically known field shapes passes the Validate method run on import; no named status value leads to a status-decided panic in code run on import; for every record the chain modifies field by field at run time, Validate (and the helpers it hands the record to) has no failure branch on a modified integer field that a storable value satisfies (interval evaluation against the guards dominating the stores); voter records are created only with an unused vote key (import refuses duplicates); the begin blocker cannot fail on the first block after import (no last commit)",
          "equality of two exports, query equivalence (runtime)"),
  "C19": ("reachability from errgroup closures and block hooks + must-pass nil/length guard facts + reviewed table of explicit block-hook failures tied to the C13/C16 invariants + SSA referrer analysis of every error result (errcheck-like, exact exemption table) + failure-branch path search for state writes",
-         "outside the framework's panic recovery: the payload nil guard precedes both verification goroutines, every index/slice of proposed data in VerifyDequeue is dominated by its length guard, no unchecked type assertion or explicit panic is reachable from a goroutine; the explicit failure exits of begin/end-of-block code are exactly the reviewed ones and the invariants excluding them hold; no process-local state survives a failed tx; no error result is discarded in hand-written production code and no tested state-write failure reaches a success exit",
+         "outside the framework's panic recovery: the payload nil guard precedes both verification goroutines, every index/slice of proposed data in VerifyDequeue is dominated by its length guard, no unchecked type assertion or explicit panic is reachable from a goroutine; the explicit failure exits of begin/end-of-block code are exactly the reviewed ones and the invariants excluding them hold (incl. the zero-power exit needing a non-empty last commit); no process-local state survives a failed tx; no error result is discarded in hand-written production code and no tested state-write failure reaches a success exit",
          "robustness against arbitrary bytes in general (decoders, dependencies) — a fuzzing property; panics inside handlers are recovered by baseapp and are rejections"),
 }
 
